@@ -37,8 +37,9 @@
       case = (graph local remote op)
       graph  = ((id (parent ...) table time) ...)      parents before children
       local, remote = ((commit ...) (table ...) ((name id) ...))
-      op     = (0 gforce depth k p tb (spec ...))      fetch;  spec  = (force glob src dst) as in C10
-             | (1 gforce p (pitem ...))                push;   pitem = (force (src)? dst)
+      op     = (0 gforce depth k p tb (spec ...) fault?)   fetch;  spec  = (force glob src dst) as in C10
+             | (1 gforce p (pitem ...) fault?)             push;   pitem = (force (src)? dst)
+      fault  = (mode phase j), see [fault] below; absent = none
       obs    = (outcome local' remote')   outcome 0 ok | 1 error; states with sorted commit / table lists
                and refs ((name id) ...) sorted by name *)
 From Coq Require Import List NArith Bool String.
@@ -177,13 +178,22 @@ Fixpoint find_commons (known : list commit) (haves : list commit) : list commit 
   end.
 
 (** does some want reach a root commit without meeting a common (findClosedSetOfObjects defers it) *)
-Definition step_avoid (g : cgraph) (commons : list commit) (s : list commit) : list commit :=
-  add_all s (flat_map (fun c => if cmem c commons then [] else cpar g c) s).
-Fixpoint iter_avoid (g : cgraph) (commons : list commit) (n : nat) (s : list commit) : list commit :=
-  match n with O => s | S n' => iter_avoid g commons n' (step_avoid g commons s) end.
+Fixpoint rev_pass_avoid (g : cgraph) (commons : list commit) (rg : cgraph) (s : list commit) : list commit :=
+  match rg with
+  | [] => s
+  | (c, _) :: r =>
+    rev_pass_avoid g commons r (if cmem c s && negb (cmem c commons) then add_all s (cpar g c) else s)
+  end.
+Fixpoint close_avoid (g : cgraph) (commons : list commit) (rg : cgraph) (fuel : nat) (s : list commit)
+  : list commit :=
+  match fuel with
+  | O => s
+  | S f => let s' := rev_pass_avoid g commons rg s in
+           if Nat.eqb (length s') (length s) then s else close_avoid g commons rg f s'
+  end.
 Definition reaches_root (g : cgraph) (commons wants : list commit) : bool :=
   existsb (fun c => negb (cmem c commons) && match cpar g c with [] => true | _ => false end)
-          (iter_avoid g commons (length g) wants).
+          (close_avoid g commons (rev g) (S (length g)) wants).
 
 (** commits within [depth] parent steps of the wants (all when depth = 0) *)
 Fixpoint within_depth (g : cgraph) (depth : nat) (level : list commit) : list commit :=
@@ -360,6 +370,138 @@ Definition push (g : cgraph) (local remote : repo) (items : list pitem) (gforce 
     end
   end.
 
+(* ---------------------------------------------------------- transport faults *)
+(** A fault loses ONE response of the exchange entirely (the request has been processed by the server):
+      mode  1 = the connection is aborted (the command fails),
+            2 = an HTTP/2 stream reset; fetch.Fetch retries the whole exchange on that error, push does not;
+      phase 1 = the answer to GET /refs/,
+            2 = the first JSON answer of the upload-pack / receive-pack exchange,
+            3 = the answer of the packfile exchange that carries the j-th commit object.
+    A phase that does not occur in the exchange is no fault at all. *)
+Record fault := mk_fault { f_mode : N; f_phase : N; f_j : nat }.
+
+Definition is_table (o : obj) : bool := match o with OTable _ => true | OCommit _ => false end.
+Definition commits_in (p : list obj) : nat := length (filter (fun o => negb (is_table o)) p).
+
+Fixpoint pack_of_commit (j : nat) (packs : list (list obj)) (i : nat) : option nat :=
+  match packs with
+  | [] => None
+  | p :: rest =>
+    match j with
+    | O => None
+    | _ => if Nat.leb j (commits_in p) then Some i else pack_of_commit (j - commits_in p) rest (S i)
+    end
+  end.
+
+(** the upload-pack exchange of [fetch_objects], made visible: (wants, is there a JSON answer, packfiles) *)
+Definition session_view (g : cgraph) (local remote : repo) (advertised : list commit)
+           (depth k p : nat) (table_nego : bool) : option (list commit * bool * list (list obj)) :=
+  let lo := r_objs local in
+  let wants := filter (fun c => negb (cmem c (o_commits lo))) advertised in
+  match wants with
+  | [] => None
+  | _ =>
+    let known := reachable g remote in
+    if negb (forallb (fun w => cmem w known && cmem (ctbl g w) (o_tables (r_objs remote))) wants)
+    then None else
+    let '(commons, rounds) :=
+        negotiate g lo known wants k (S (length g)) (q_new g (ref_values (r_refs local))) [] O in
+    let acked := if table_nego then o_tables lo else [] in
+    Some (wants,
+          Nat.ltb 1 rounds || (table_nego && existsb is_table (plan g (r_objs remote) wants commons depth [])),
+          chunk p (plan g (r_objs remote) wants commons depth acked))
+  end.
+
+Definition fetch_f (g : cgraph) (local remote : repo) (specs : list refspec) (gforce : bool)
+           (depth k p : nat) (table_nego : bool) (f : fault) : N * repo :=
+  let normal := fetch g local remote specs gforce depth k p table_nego in
+  if f_mode f =? 0 then normal
+  else if f_phase f =? 1 then (1, local)
+  else
+    let adv := map fi_new (fst (resolve_fetch specs (listing (r_refs remote)))) in
+    match session_view g local remote adv depth k p table_nego with
+    | None => normal
+    | Some (wants, has_json, packs) =>
+      let hit := if f_phase f =? 2 then (if has_json then Some [] else None)
+                 else match pack_of_commit (f_j f) packs O with
+                      | Some i => Some (firstn i packs)
+                      | None => None
+                      end in
+      match hit with
+      | None => normal
+      | Some received =>
+        match receive_packs g (r_objs local) wants received with
+        | Some (_, [], _) => normal          (* the session was complete before the faulted request *)
+        | Some (o', _, _) =>
+          let partial := mk_repo o' (r_refs local) in
+          if f_mode f =? 1 then (1, partial)
+          else fetch g partial remote specs gforce depth k p table_nego   (* retried from scratch *)
+        | None => (1, local)
+        end
+      end
+    end.
+
+(** the refs step of the reference receive-pack server on an object store [o'] *)
+Definition push_apply (g : cgraph) (remote : repo) (us : list update) (o' : objs) : repo :=
+  let ok := filter (fun u => match u_new u with Some c => cmem c (o_commits o') | None => true end)
+                   (sort_upds us) in
+  mk_repo o' (fst (fst (fold_left (server_apply (is_ancestor (to_graph g)) false false) ok (r_refs remote, [], O)))).
+
+(** the receive-pack exchange of [push], made visible: (updates, commits the server expects, packfiles);
+    None = no request is sent (nothing to update, or the client refuses) *)
+Definition push_view (g : cgraph) (local remote : repo) (items : list pitem) (gforce : bool) (p : nat)
+  : option (list update * list commit * list (list obj)) :=
+  let ia := is_ancestor (to_graph g) in
+  match identify_updates ia gforce (r_refs local) (listing (r_refs remote)) items with
+  | None => None
+  | Some (us, _) =>
+    match us with
+    | [] => None
+    | _ =>
+      let wants := flat_map (fun u => match u_new u with Some c => [c] | None => [] end) us in
+      let known := reachable g local in
+      if negb (forallb (fun w => cmem w known && cmem (ctbl g w) (o_tables (r_objs local))) wants)
+      then None else
+      let commons := filter (fun h => cmem h known) (map snd (listing (r_refs remote))) in
+      let stream := plan g (r_objs local) wants commons O (o_tables (r_objs remote)) in
+      if existsb (fun o => match o with
+                           | OCommit c => negb (cmem (ctbl g c) (o_tables (r_objs local)))
+                           | OTable _ => false end) stream
+      then None else
+      Some (us, filter (fun c => negb (cmem c (o_commits (r_objs remote)))) wants, chunk p stream)
+    end
+  end.
+
+Definition push_f (g : cgraph) (local remote : repo) (items : list pitem) (gforce : bool) (p : nat)
+           (f : fault) : N * repo :=
+  let normal := push g local remote items gforce p in
+  if f_mode f =? 0 then normal
+  else if f_phase f =? 1 then (1, remote)
+  else
+    match push_view g local remote items gforce p with
+    | None => normal
+    | Some (us, expected, packs) =>
+      if f_phase f =? 2 then
+        match expected with
+        | [] => (1, push_apply g remote us (r_objs remote))   (* report lost after the refs were applied *)
+        | _ => (1, remote)
+        end
+      else
+        match expected with
+        | [] => normal
+        | _ =>
+          match pack_of_commit (f_j f) packs O with
+          | None => normal
+          | Some i =>
+            match receive_packs g (r_objs remote) expected (firstn (S i) packs) with
+            | Some (o', [], _) => (1, push_apply g remote us o')
+            | Some (o', _, _) => (1, mk_repo o' (r_refs remote))
+            | None => (1, remote)
+            end
+          end
+        end
+    end.
+
 (* ------------------------------------------------------------ tree coders *)
 Definition d_cgraph (t : tree) : cgraph :=
   d_list (fun e => (d_N (d_nth 0 e),
@@ -383,6 +525,9 @@ Definition t_repo (r : repo) : tree :=
 
 Definition pack_param (n : nat) : nat := match n with O => 2000%nat | _ => n end.
 
+Definition d_fault (t : tree) : fault :=
+  mk_fault (d_N (d_nth 0 t)) (d_N (d_nth 1 t)) (d_nat (d_nth 2 t)).
+
 Definition run_C09 (t : tree) : tree :=
   let g := d_cgraph (d_nth 0 t) in
   let local := d_repo (d_nth 1 t) in
@@ -391,12 +536,12 @@ Definition run_C09 (t : tree) : tree :=
   match d_N (d_nth 0 op) with
   | 0 =>
     let k := match d_nat (d_nth 3 op) with O => 256%nat | n => n end in
-    let '(out, l') := fetch g local remote (d_list d_spec (d_nth 6 op)) (d_bool (d_nth 1 op))
-                            (d_nat (d_nth 2 op)) k (pack_param (d_nat (d_nth 4 op)))
-                            (negb (d_N (d_nth 5 op) =? 0)) in
+    let '(out, l') := fetch_f g local remote (d_list d_spec (d_nth 6 op)) (d_bool (d_nth 1 op))
+                              (d_nat (d_nth 2 op)) k (pack_param (d_nat (d_nth 4 op)))
+                              (negb (d_N (d_nth 5 op) =? 0)) (d_fault (d_nth 7 op)) in
     Node [Leaf out; t_repo l'; t_repo remote]
   | _ =>
-    let '(out, r') := push g local remote (d_list d_pitem (d_nth 3 op)) (d_bool (d_nth 1 op))
-                           (pack_param (d_nat (d_nth 2 op))) in
+    let '(out, r') := push_f g local remote (d_list d_pitem (d_nth 3 op)) (d_bool (d_nth 1 op))
+                             (pack_param (d_nat (d_nth 2 op))) (d_fault (d_nth 4 op)) in
     Node [Leaf out; t_repo local; t_repo r']
   end.
